@@ -116,6 +116,7 @@ pub struct Env {
     pub pools: BTreeMap<String, PoolInfo>,
     pub reserves: BTreeMap<String, ReserveInfo>,
     pub markets: BTreeMap<String, MarketInfo>,
+    pub sreserves: BTreeMap<String, ReserveInfo>,
 }
 
 pub fn fee_state_key() -> Pubkey {
@@ -145,6 +146,7 @@ impl Env {
             ("prog.kamino", marginfi::constants::KAMINO_PROGRAM_ID),
             ("prog.drift", marginfi::constants::DRIFT_PROGRAM_ID),
             ("prog.farms", marginfi::constants::FARMS_PROGRAM_ID),
+            ("prog.solend", marginfi::constants::SOLEND_PROGRAM_ID),
             ("prog.wrapper", crate::rt::wrapper_program_id()),
             ("prog.unknown", crate::rt::noop_program_id()),
         ] {
@@ -334,6 +336,58 @@ impl Env {
         }
         self.token_account(&format!("{}.csupply", name), mint_name, lma);
         self.reserves.insert(name.to_string(), ReserveInfo { reserve, market, lma, supply_vault: vault, mint_name: mint_name.to_string() });
+    }
+
+    /// Solend reserve (stand-in venue): reserve account on the real packed layout behind its version byte, lending
+    /// market, liquidity supply vault owned by the market's authority PDA
+    pub fn add_solend_reserve(&mut self, name: &str, mint_name: &str, market_name: &str, avail: u64, supply: u64, borrowed_wads: u128) {
+        use solend_mocks::state::{SolendMinimalReserve, RESERVE_LEN};
+        let solend = marginfi::constants::SOLEND_PROGRAM_ID;
+        let m = self.mints[mint_name].clone();
+        let reserve = self.k(name);
+        let market = self.k(market_name);
+        if self.world.get(&market).is_none() {
+            self.world.set(market, Acct { lamports: 10_000_000, data: vec![1u8; 290], owner: solend, executable: false });
+        }
+        let (lma, _) = crate::venue::solend::lending_market_authority(&market);
+        self.names.reg(&format!("{}.lma", market_name), lma);
+        let vault = self.token_account(&format!("{}.supply", name), mint_name, lma);
+        if avail > 0 {
+            self.mint_to(mint_name, vault, avail);
+        }
+        let mut r: SolendMinimalReserve = bytemuck::Zeroable::zeroed();
+        r.last_update_slot = self.world.clock.slot;
+        r.lending_market = market;
+        r.liquidity_mint_pubkey = m.key;
+        r.liquidity_mint_decimals = m.decimals;
+        r.liquidity_supply_pubkey = vault;
+        r.liquidity_available_amount = avail;
+        r.liquidity_borrowed_amount_wads = borrowed_wads.to_le_bytes();
+        r.collateral_mint_total_supply = supply;
+        let mut data = vec![1u8];
+        data.extend_from_slice(bytemuck::bytes_of(&r));
+        assert_eq!(data.len(), RESERVE_LEN);
+        self.world.set(reserve, Acct { lamports: 100_000_000, data, owner: solend, executable: false });
+        for sfx in ["cmint", "ucol"] {
+            let k = self.k(&format!("{}.{}", name, sfx));
+            if self.world.get(&k).is_none() {
+                self.world.fund(k, 1_000_000);
+            }
+        }
+        self.token_account(&format!("{}.csupply", name), mint_name, lma);
+        self.sreserves.insert(name.to_string(), ReserveInfo { reserve, market, lma, supply_vault: vault, mint_name: mint_name.to_string() });
+    }
+    pub fn set_solend_reserve(&mut self, name: &str, f: &dyn Fn(&mut solend_mocks::state::SolendMinimalReserve)) {
+        use solend_mocks::state::{SolendMinimalReserve, RESERVE_LEN};
+        let key = match self.sreserves.get(name) {
+            Some(r) => r.reserve,
+            None => return,
+        };
+        if let Some(a) = self.world.accts.get_mut(&key) {
+            let mut r: SolendMinimalReserve = bytemuck::pod_read_unaligned(&a.data[1..RESERVE_LEN]);
+            f(&mut r);
+            a.data[1..RESERVE_LEN].copy_from_slice(bytemuck::bytes_of(&r));
+        }
     }
 
     /// Drift spot market (stand-in venue): market account with the real layout, vault owned by the venue's signer PDA
